@@ -71,3 +71,15 @@ Theorem C03_function_outcome_from_text : forall cfg parse_float regex_ok ffun af
             ((exists a l, fst (eval_run ffun afun regex_match t doc st) = OOk (a :: l)) \/ (exists e, fst (eval_run ffun afun regex_match t doc st) = OErr e)).
 Proof. exact fun_outcome_from_text. Qed.
 Print Assumptions C03_function_outcome_from_text.
+(* … and followed by an aggregate function (AggCor.v): one result or an error *)
+From JP Require Import AggParse AggCor.
+Theorem C03_aggregate_outcome_from_text : forall cfg parse_float regex_ok ffun afun regex_match,
+  (forall f v w, small v -> ffun f v = Some w -> small w) ->
+  (forall f l w, Forall small l -> afun f l = Some w -> small w) ->
+  forall x r g fs doc st,
+  forallb fstep_ok (x :: r) = true -> forallb (fstep_okp parse_float regex_ok) (x :: r) = true ->
+  forallb fname_ok (g :: fs) = true -> agg_known cfg g = true -> forallb (fun_known cfg) fs = true -> small doc -> ok st ->
+  exists t, parse_with cfg parse_float regex_ok jsonpath_grammar (fchain_fun_path (x :: r) (g :: fs)) = ParseOk t /\
+            ((exists a, fst (eval_run ffun afun regex_match t doc st) = OOk [a]) \/ (exists e, fst (eval_run ffun afun regex_match t doc st) = OErr e)).
+Proof. exact agg_outcome_from_text. Qed.
+Print Assumptions C03_aggregate_outcome_from_text.
